@@ -135,13 +135,32 @@ type v07Cfg struct {
 	// phase: virtual time that passes before the manager starts, so that the sweeper's ticks (and every
 	// later instant) are not aligned to whole wall-clock seconds (the bubble's clock starts at a whole second)
 	phase time.Duration
+	// longPfx: common prefix (>= 64 bytes) of every destination string of the case ("" = short names)
+	longPfx string
 }
 
 func (c v07Cfg) addr(s, dest int) string {
 	if c.shared {
-		return v07Addr(0, dest)
+		return c.longPfx + v07Addr(0, dest)
 	}
-	return v07Addr(s, dest)
+	return c.longPfx + v07Addr(s, dest)
+}
+
+// v07LongPrefix: n bytes of host-name labels, "long-" first, ending in a dot. Destinations of one case
+// then share their first n bytes and differ only in the tail.
+func v07LongPrefix(n int) string {
+	b := []byte("long-")
+	for i := 0; len(b) < n; i++ {
+		if i%10 == 9 || len(b) == n-1 {
+			b = append(b, '.')
+		} else {
+			b = append(b, byte('a'+i%26))
+		}
+	}
+	if b[len(b)-2] == '.' {
+		b[len(b)-2] = 'z'
+	}
+	return string(b)
 }
 
 func (c v07Cfg) String() string {
@@ -159,6 +178,11 @@ func v07RewrittenAddr(s int) string { return fmt.Sprintf("s%d.x.test:9", s) }
 
 // v07ParseAddr returns the session index and destination index (-1 = rewritten target) of a harness address.
 func v07ParseAddr(a string) (s, dest int, ok bool) {
+	if strings.HasPrefix(a, "long-") {
+		if i := strings.LastIndex(a, ".s"); i >= 0 {
+			a = a[i+1:]
+		}
+	}
 	var port int
 	if n, _ := fmt.Sscanf(a, "s%d.d%d.test:%d", &s, &dest, &port); n == 3 {
 		return s, dest, true
